@@ -75,7 +75,14 @@ bool PropertyCont::hasProperty( const std::string& name, char separator) const
       auto const      subtree_iter = mProperties.find( npr.firstName());
       if (subtree_iter == mProperties.end())
          return false;
-      auto  subtree = static_cast< PropertyCont*>( subtree_iter->second);
+      const PropertyEntry*  entry = subtree_iter->second;
+      // a link on the path stands for the entry it points to
+      if (entry->entryType() == PropertyEntry::Types::link)
+         entry = static_cast< const PropertyLink*>( entry)->iterator()->second;
+      // only a map can contain the rest of the path
+      if (entry->entryType() != PropertyEntry::Types::map)
+         return false;
+      auto  subtree = static_cast< const PropertyCont*>( entry);
       return subtree->hasProperty( npr.remain(), separator);
    } // end if
 
